@@ -47,6 +47,8 @@ pub struct Run {
     /// earlier invocations of the binary in the same tree (same working directory and environment), executed before the
     /// "before" snapshot is taken: the observed run then starts from a state the program itself produced
     pub pre: Vec<Vec<String>>,
+    /// the reader of the binary's stdout is gone before it writes anything (every write to stdout fails with a broken pipe)
+    pub close_stdout: bool,
 }
 
 pub type Snapshot = BTreeMap<String, (Vec<u8>, i128, u64, u32)>;
@@ -259,11 +261,19 @@ pub fn execute(id: usize, tree: &Tree, run: &Run) -> Outcome {
         }
     }
     // the run must end: a binary that does not terminate is an observation (exit code 2000), not a reason to wait for ever
-    let mut so = child.stdout.take().unwrap();
+    // (with close_stdout the read end is closed here, synchronously, long before the program can have produced a result)
+    let so = if run.close_stdout {
+        drop(child.stdout.take());
+        None
+    } else {
+        child.stdout.take()
+    };
     let mut se = child.stderr.take().unwrap();
     let h1 = std::thread::spawn(move || {
         let mut v = vec![];
-        let _ = so.read_to_end(&mut v);
+        if let Some(mut so) = so {
+            let _ = so.read_to_end(&mut v);
+        }
         v
     });
     let h2 = std::thread::spawn(move || {
